@@ -49,6 +49,8 @@ def make_cfg(r, seed, n_ops=None, probe_p=0.0):
         cfg["root_name"] = "a"  # names repeating the root's own component (prefix-rewrite corner)
     if r.random() < 0.25:
         cfg["names"] = ["a", "ab", "b"]  # names that are string prefixes of each other
+    if r.random() < 0.4:
+        cfg["out_ops"] = True  # other activity on directories after they left the tree must not leak into the stream
     return cfg
 
 
@@ -78,7 +80,7 @@ def run_one(b: Batch, cfg, prop, justify=None):
 
 
 def plan(tier, seed, jobs):
-    specs = []
+    specs = [{"kind": "corpus", "budget_s": 60}]
     if tier == "quick":
         for j in range(jobs):
             specs.append({"kind": "random", "n": 200, "seed": seed, "j": j, "budget_s": 55})
@@ -97,6 +99,14 @@ def run_batch_for(prop, spec, probe_p=0.0, justify=None):
                 break
             cfg = make_cfg(r, spec["seed"] * 1000003 + spec["j"] * 10007 + n, probe_p=probe_p)
             run_one(b, cfg, prop, justify)
+    elif spec["kind"] == "corpus":
+        # regression corpus shared with C02/C03 (witnesses of repaired defects and of seeded changes that need several steps)
+        from wdverif.props import c02, c03
+
+        for cfg in c02.CORPUS + c03.CORPUS:
+            for mode, rs in (("plain", None), ("small", 300)):
+                run_one(b, dict(cfg, mode=mode, read_size=rs, final_probes=False, probe_p=0.0), prop, justify)
+                b.count("corpus_cases")
     elif spec["kind"] == "history1":
         for _ in range(3):
             run_one(b, spec["cfg"], prop, justify)
